@@ -42,12 +42,12 @@ Proof. vm_compute. reflexivity. Qed.
 
 Theorem mpi_project_writes_nothing :
   mp_nonlocal_writes mpi_purity = [] /\ mp_static_decls mpi_purity = 0 /\ mp_mutable_members mpi_purity = 0 /\
-  mp_file_statics mpi_purity = 0 /\ mp_nreturns mpi_purity = 1 /\ mp_param mpi_purity = "constDenseVector&vec".
+  mp_file_statics mpi_purity = 0 /\ mp_nreturns mpi_purity <> 0 /\ mp_param mpi_purity = "constDenseVector&vec".
 Proof.
   pose proof mpi_project_pure_obligation as H. unfold mpi_pure_b in H. rewrite !andb_true_iff in H.
   destruct H as [[[[[Hw Hs] Hm] Hf] Hr] Hp].
   destruct (mp_nonlocal_writes mpi_purity) as [|w ws]; [|discriminate Hw].
-  apply Nat.eqb_eq in Hs, Hm, Hf, Hr. apply String.eqb_eq in Hp.
+  apply Nat.eqb_eq in Hs, Hm, Hf. apply negb_true_iff, Nat.eqb_neq in Hr. apply String.eqb_eq in Hp.
   repeat split; assumption.
 Qed.
 
